@@ -116,7 +116,7 @@ def _constructors(model, res, opaque):
             res.violation('R2', 'function:DATE:constructor', m.where(f),
                           'DATE(y, m, d) must construct (y + 1900 if y < 1900 else y, m, d); on the piece %s it constructs %r'
                           % ('y < 1900' if below else 'y >= 1900', v), func=f.name)
-    res.floor('DATE pieces', n, 2)
+    res.soft_floor('DATE pieces', n, 2)
     m, f = model.registered('TIME')
     outs = _runs(model, 'TIME', lambda: [Sym('int', 'h'), Sym('int', 'mi'), Sym('int', 's')], opaque)
     n = 0
@@ -130,7 +130,7 @@ def _constructors(model, res, opaque):
         res.ob('R2', 'TIME', {'constructor': repr(v)}, ok)
         if not ok:
             res.violation('R2', 'function:TIME:constructor', m.where(f), 'TIME(h, m, s) must construct a date-time with (hour=h, minute=m, second=s); got %r' % (v,), func=f.name)
-    res.floor('TIME traces', n, 1)
+    res.soft_floor('TIME traces', n, 1)
 
 
 def _eval_bool(node, env):
@@ -206,6 +206,8 @@ def _leap_and_tables(model, res):
             if isinstance(node, ast.List) and len(node.elts) == 12:
                 vals = []
                 for i, e in enumerate(node.elts):
+                    if isinstance(e, ast.Name):
+                        e = sa.resolve_local(f, e)      # february = 29 if <leap> else 28
                     if isinstance(e, ast.Constant):
                         vals.append(e.value)
                     elif isinstance(e, ast.IfExp) and isinstance(e.body, ast.Constant) and isinstance(e.orelse, ast.Constant):
@@ -278,7 +280,7 @@ def _guards(model, res, opaque, E):
             res.ob('R5', 'DATEDIF', 'start later than end', ok, repr(o)[:120])
             if not ok:
                 res.violation('R5', 'function:DATEDIF:start-after-end', m.where(f), 'DATEDIF with the start later than the end must give #NUM!; got %r' % (o,), func=f.name)
-    res.floor('DATEDIF traces with start > end', n, 1)
+    res.soft_floor('DATEDIF traces with start > end', n, 1)
 
 
 def _eval_atom(v, env):
@@ -413,7 +415,7 @@ def _edate(model, res, opaque, E):
             res.violation('R7', 'function:EDATE:month-arithmetic', m.where(f),
                           'EDATE from month %d with an offset of 12q+%d months constructs (year=%s, month=%s); moving by whole months requires '
                           '(year = start year + q + %d, month = %d)' % (sm, r, y, mo, carry, wm), case={'start month': sm, 'offset residue': r}, func=f.name)
-        res.floor('EDATE constructor calls examined', n, 100)
+        res.soft_floor('EDATE constructor calls examined', n, 100)
 
 
 def _formats(model, res):
@@ -521,7 +523,7 @@ def _datedif(model, res, opaque, E):
                       'DATEDIF unit "%s" from month %d to month %d with %s returns %s; whole %s require the component formula with a borrow when '
                       'the end day is before the start day' % (unit, sm, em, dd, v, 'months' if unit != 'y' else 'years'),
                       case={'unit': unit, 'start month': sm, 'end month': em}, func=f.name)
-    res.floor('DATEDIF component traces', n, 200)
+    res.soft_floor('DATEDIF component traces', n, 200)
 
 
 def _is_lin(v, coeffs, const):
